@@ -9,7 +9,8 @@ Syntax (no spaces inside a token):
   cache  := `-` | entry (`|` entry)*        entry := peer `=` [addr (`+` addr)*]
   choice := `e:-` | `e:` peer (`,` peer)*   (peers the implementation evicted; tie-break witness)
 Ops:  cfg P A E N | mk s mode | tick d | add s ma e | upd s ma b | clean s e | flush s b e | write s | load e |
-      lupd ma b e | start flags count args env o e h | file cache | corrupt k | craft ma | race …
+      lupd ma b e | start flags count args env o e h | file cache | corrupt k | craft ma | race … |
+      wfault s | ffault s b e h | pswap s t | fbegin s b z:1 | fbegin s b z:0 e | fend s b e h
 -/
 namespace SafeNet.Driver.BootCache
 open SafeNet.BootCache
@@ -127,8 +128,32 @@ def showStart : Except StartErr (List Addr) → String
   | .ok l => if l.isEmpty then "ok -" else "ok " ++ "+".intercalate (sortStr (l.map showAddr))
   | .error .noPeers => "err nopeers"
   | .error .cache => "err cache"
+  | .error .badDir => "err baddir"
 
 def flushOut (s : Sys) (i : Nat) : String := s!"m={memOf s i} f={showFile s.file}"
+
+/-- what `--bootstrap-cache-dir` points at, from the flags of `mk` / `start` -/
+def dirKindOf (fl : String) : DirKind :=
+  if fl.contains 'D' then .isFile else if fl.contains 'U' then .uncreatable else if fl.contains 'M' then .missing
+  else if fl.contains 'd' then .isDir else .noOverride
+
+/-- Driver state: the model state, and for every store whose flush is stopped between its halves the model state at the
+moment of its load half (the tie-break of that load is only observable at the commit: the `h:` digest selects it). -/
+structure DState where
+  sys : Sys
+  snaps : List (Nat × Sys)
+
+def DState.init : DState := ⟨Sys.init Cfg.default 1, []⟩
+
+def snapOf (snaps : List (Nat × Sys)) (i : Nat) : Option Sys := (snaps.find? (·.1 == i)).map (·.2)
+
+/-- history `… flushLoad i ch1 … (ops of others) … flushCommit i wc ch`: ops of others never touch store `i`'s `loaded`,
+so the state before the commit is the current one with `loaded` as the load half left it. The stopped flush has READ THE
+FILE at `fbegin` (the snapshot's file) but its clock reads — the first one is where it is stopped — all return the time of
+`fend`: the clean-up inside `load_cache_data` runs on the snapshot's file with the current clock. -/
+def graftLoad (cur snap : Sys) (i : Nat) (ch1 : List Nat) : Sys :=
+  let l := (getW (SafeNet.BootCache.step { snap with now := cur.now } (.flushLoad i ch1)).ws i).loaded
+  { cur with ws := modAt (fun w => { w with loaded := l }) i cur.ws }
 
 def step (s : Sys) (ws : List String) : Sys × String :=
   match ws with
@@ -178,6 +203,11 @@ def step (s : Sys) (ws : List String) : Sys × String :=
     -- override with the config's own path elsewhere, `c` = no override, `f` = first, `l` = local, `i` = ignore_cache)
     match i.toNat? with
     | some i =>
+      -- `get_bootstrap_cache_path()?` comes first in `new_from_peers_args`: an unusable directory argument ends it
+      match (if mode.contains 'n' then none else dirErr (dirKindOf mode)) with
+      | some .badDir => (s, "err baddir")
+      | some _ => (s, "err cache")
+      | none =>
       let first := mode.contains 'f'
       let dis := mode.contains 'l'
       let s' := SafeNet.BootCache.step s (.rebuild i first dis)
@@ -190,7 +220,9 @@ def step (s : Sys) (ws : List String) : Sys × String :=
     | some addrs, some env, some ord, some ch, some d =>
       let count := if cnt = "-" then none else cnt.toNat?
       let args : StartArgs := ⟨fl.contains 'f', fl.contains 'l', fl.contains 'i', addrs, count⟩
-      let attempt (ch1 : List Nat) : String := showStart (startup s.cfg ch1 ord s.now args env s.file)
+      let dk := dirKindOf fl
+      let file := if dk == .missing then File.absent else s.file
+      let attempt (ch1 : List Nat) : String := showStart (startup s.cfg ch1 ord s.now args env dk file)
       let r0 := attempt ch
       if fnv r0 == d then (s, r0) else
       let ks := match s.file with | .data c => keys c | _ => []
@@ -201,15 +233,39 @@ def step (s : Sys) (ws : List String) : Sys × String :=
     | _, _, _, _, _ => (s, "bad-op")
   | ["wfault", i] =>
     -- a save during which every write fails (disk full): `AtomicWriteFile` never commits, so the file is what it
-    -- was, and the error is returned
+    -- was, the error is returned, the memory is untouched
     match i.toNat? with
-    | some _ => (s, s!"err f={showFile s.file}")
+    | some i => (s, s!"err m={memOf s i} f={showFile s.file}")
     | none => (s, "bad-op")
-  | ["ffault", i] =>
-    -- the same through `sync_and_flush_to_disk` (which does nothing and reports Ok when cache writing is disabled)
-    match i.toNat? with
-    | some i => (s, s!"{if (getW s.ws i).disabled then "ok" else "err"} f={showFile s.file}")
-    | none => (s, "bad-op")
+  | ["ffault", i, b, e, h] =>
+    -- the same through `sync_and_flush_to_disk` (which does nothing and reports Ok when cache writing is disabled):
+    -- `Op.flushFail` — what stays in memory follows `flushFailKeepsMemory`
+    match i.toNat?, b.toNat?, parseChoice e, parseDigest h with
+    | some i, some b, some ch, some d =>
+      let res (s' : Sys) : String := s!"{if (getW s.ws i).disabled then "ok" else "err"} m={memOf s' i} f={showFile s'.file}"
+      let attempt (ch1 : List Nat) : Sys := run s [.flushLoad i ch1, .flushFail i (b != 0) ch]
+      let s0 := attempt ch
+      if fnv (res s0) == d then (s0, res s0) else
+      let ks := match s.file with | .data c => keys c | _ => []
+      let cands := if ks.length ≤ 7 then perms ks else rotations ks
+      match cands.find? (fun ch1 => fnv (res (attempt ch1)) == d) with
+      | some ch1 => let s1 := attempt ch1; (s1, res s1)
+      | none => (s0, res s0)
+    | _, _, _, _ => (s, "bad-op")
+  | ["ffault", i, e, h] =>
+    match i.toNat?, parseChoice e, parseDigest h with
+    | some i, some ch, some _ =>
+      let s' := run s [.flushLoad i ch, .flushFail i false ch]
+      (s', s!"{if (getW s.ws i).disabled then "ok" else "err"} m={memOf s' i} f={showFile s'.file}")
+    | _, _, _ => (s, "bad-op")
+  | ["pswap", i, j] =>
+    match i.toNat?, j.toNat? with
+    | some i, some j =>
+      if i < s.ws.length && j < s.ws.length && i != j then
+        let s' := SafeNet.BootCache.step s (.swap i j)
+        (s', s!"m={memOf s' i} | m={memOf s' j}")
+      else (s, "busy")
+    | _, _ => (s, "bad-op")
   | ["write", i] =>
     match i.toNat? with
     | some i => let s' := SafeNet.BootCache.step s (.write i); (s', s!"f={showFile s'.file}")
@@ -245,6 +301,61 @@ def step (s : Sys) (ws : List String) : Sys × String :=
   | "race" :: _ => (s, "race ok")
   | _ => (s, "bad-op")
 
+/-- the driver's step: `fbegin` / `fend` (a flush stopped between its halves) on top of `step` -/
+def dstep (st : DState) (ws : List String) : DState × String :=
+  let s := st.sys
+  match ws with
+  | ["fbegin", i, _, "z:1"] =>
+    -- stopped after the load half: the load happens NOW (on the file as it is now); its tie-break is chosen at `fend`
+    match i.toNat? with
+    | some i =>
+      if i < s.ws.length && (snapOf st.snaps i).isNone then
+        (⟨SafeNet.BootCache.step s (.flushLoad i []), (i, s) :: st.snaps⟩, "paused")
+      else (st, "busy")
+    | none => (st, "bad-op")
+  | ["fbegin", i, b, "z:0", e] =>
+    -- the flush met no clock read and ran to its end at once
+    match i.toNat?, b.toNat?, parseChoice e with
+    | some i, some b, some ch =>
+      if i < s.ws.length && (snapOf st.snaps i).isNone then
+        let s' := run s (flushOps i (b != 0) ch)
+        (⟨s', st.snaps⟩, s!"done {flushOut s' i}")
+      else (st, "busy")
+    | _, _, _ => (st, "bad-op")
+  | ["fend", i, b, e, h] =>
+    match i.toNat?, b.toNat?, parseChoice e, parseDigest h with
+    | some i, some b, some ch, some d =>
+      match snapOf st.snaps i with
+      | none => (st, "idle")
+      | some snap =>
+        let snaps := st.snaps.filter (·.1 != i)
+        let attempt (ch1 : List Nat) : Sys := SafeNet.BootCache.step (graftLoad s snap i ch1) (.flushCommit i (b != 0) ch)
+        let s0 := attempt ch
+        if fnv (flushOut s0 i) == d then (⟨s0, snaps⟩, flushOut s0 i) else
+        let ks := match snap.file with | .data c => keys c | _ => []
+        let cands := if ks.length ≤ 7 then perms ks else rotations ks
+        match cands.find? (fun ch1 => fnv (flushOut (attempt ch1) i) == d) with
+        | some ch1 => let s1 := attempt ch1; (⟨s1, snaps⟩, flushOut s1 i)
+        | none => (⟨s0, snaps⟩, flushOut s0 i)
+    | _, _, _, _ => (st, "bad-op")
+  | ["fend", i, _] =>
+    -- no flush of this store is stopped (it ran to its end at `fbegin`): nothing to do
+    match i.toNat? with
+    | some i => if (snapOf st.snaps i).isNone then (st, "idle") else (st, "bad-op")
+    | none => (st, "bad-op")
+  | "cfg" :: _ => let (s', o) := step s ws; (⟨s', []⟩, o)
+  | op :: i :: _ =>
+    -- a store whose flush is in flight is not available to other ops
+    if ["add", "upd", "clean", "flush", "write", "mk", "wfault", "ffault"].contains op
+        && (match i.toNat? with | some i => (snapOf st.snaps i).isSome | none => false) then (st, "busy")
+    else if op == "pswap" && (match ws with
+        | [_, a, b] => (match a.toNat?, b.toNat? with
+          | some a, some b => (snapOf st.snaps a).isSome || (snapOf st.snaps b).isSome
+          | _, _ => false)
+        | _ => false) then (st, "busy")
+    else let (s', o) := step s ws; (⟨s', st.snaps⟩, o)
+  | _ => let (s', o) := step s ws; (⟨s', st.snaps⟩, o)
+
 /-- Model search (used only when a proof obligation broke): inputs on which the regenerated model
 contradicts a clause of C18, printed as harness op lines (each candidate is a whole case, ops joined by " ; "
 are not supported by the replay, so every candidate here is a single self-contained line or a short block
@@ -254,10 +365,16 @@ def searchCandidates : List String := Id.run do
   -- non-atomic write: readers can observe a partial file; ask the harness to race real writers
   if !Gen.BootCache.writeAtomic then
     out := out ++ ["cfg 50 6 86400 3", "race 1 3 60", "race 2 3 60", "race 3 4 60"]
+  -- a failed flush must leave the memory within its limits
+  if !Gen.BootCache.flushFailKeepsMemory then
+    out := out ++ ["cfg 1 2 100 1", "tick 2", "add 0 i4:1,u:1,q,p:1", "flush 0 0", "tick 2", "add 0 i4:1,u:1,q,p:2", "ffault 0 0", "load"]
+  -- the periodic save must clean up (bounded file)
+  if !Gen.BootCache.periodicFlushCleans then
+    out := out ++ ["cfg 1 2 100 2", "tick 2", "add 0 i4:1,u:1,q,p:1", "flush 0 0", "tick 2", "add 0 i4:1,u:1,q,p:2", "pswap 0 1", "flush 1 0", "load"]
   -- start-up must not fail because of an unparsable cache file
   if !Gen.BootCache.startupIgnoresLoadError then
     let sa : StartArgs := ⟨false, false, false, [[.ip4 1, .udp 1, .quic, .p2p 7]], none⟩
-    if okB (startup ⟨3, 3, 100⟩ [] [] 1000000 sa [] .garbage) != okB (startup ⟨3, 3, 100⟩ [] [] 1000000 sa [] .absent) then
+    if okB (startup ⟨3, 3, 100⟩ [] [] 1000000 sa [] .noOverride .garbage) != okB (startup ⟨3, 3, 100⟩ [] [] 1000000 sa [] .noOverride .absent) then
       out := out ++ ["cfg 3 3 100 1", "corrupt 1", "start - - i4:1,u:1,q,p:7 -", "corrupt 0", "start d 5 i4:1,u:1,q,p:7 -"]
   -- bounds / clean-up clauses on a small exhaustive family of histories
   let a (p n : Nat) : String := s!"i4:{n},u:{n},q,p:{p}"
